@@ -499,3 +499,9 @@ package tengo
 //@   loop 2 invariant same: !changed ==> forall j in 0..rangeindex+1 :: newElems[j] == iv[j]
 //@   loop 3 invariant shape: newMap != nil && fresh(newMap)
 //@   loop 3 invariant memo: forall k Object :: haskey(memo, k) ==> !is(memo[k], *Array) && !is(memo[k], *Map)
+
+//@ func builtinFreeze
+//@   props C09
+//@   assigns nothing
+//@   ensures argc: len(args) != 1 ==> res0 == nil && res1 == ErrWrongNumArguments
+//@   ensures frozen: len(args) == 1 ==> res1 == nil && !is(res0, *Array) && !is(res0, *Map)
